@@ -28,7 +28,7 @@ CONSTANTS MaxTables, MaxDepth, MaxRows, Roots
 VARIABLES heap, naid, last, depth
 vars == <<heap, naid, last, depth>>
 View == <<heap, depth>>
-Id == <<TLCFP(heap), TLCFP(<<"salt", heap>>), Len(heap)>>
+Id == <<TLCFP(heap), TLCFP(<<"salt", heap>>), TLCFP(<<heap, 7>>), Len(heap)>>
 
 Unknown == 0 - 999
 DataCols == {"a", "b", "s"}
